@@ -5,7 +5,7 @@
 From Irismod Require Import Service.Check.
 From Irismod Require Import Service.Model Service.Proofs Service.ProofsHist Service.ProofsEscrow
   Service.ProofsSched Service.ProofsBatch Service.ProofsLiab Service.ProofsTally Service.ProofsLive
-  Service.ProofsModule Service.ProofsFresh Service.ProofsCallback Service.ProofsSchedule Service.ProofsModuleHist Service.ProofsOutcome Service.ProofsCheck.
+  Service.ProofsModule Service.ProofsFresh Service.ProofsCallback Service.ProofsSchedule Service.ProofsModuleHist Service.ProofsOutcome Service.ProofsCheck Service.ProofsTrack Service.ProofsBal Service.ProofsSlash Service.ProofsCb.
 
 (** Over EVERY history (any list of steps: messages of any kind and content, block ends,
     rate changes, transfers, module calls) from any initial height, time and ledger: the
@@ -347,12 +347,39 @@ Theorem model_passes_C08_clause_3 :
 Proof. exact model_passes_C08_clause_3_lemma. Qed.
 Print Assumptions model_passes_C08_clause_3.
 
-(** [model_passes_check], PARTIAL, for [check_case_C08] itself (see [model_passes_clauses_C07],
+(** clause 4 — "contexts follow their schedule", as the checker states it with its own tracker [tr]
+    (per context: last batch number, the height it started at, "running and untouched since") and
+    schedule [sc] (per context: the height at which the expiry handler scheduled the next batch):
+    a repeated, running, untouched context starts batch n+1 exactly [frequency] after batch n —
+    not at any other height, and at that height it does start it (or is paused for lack of funds)
+    while below its total; and no batch starts before the scheduled height, whatever pause / start
+    did in between.  Along the model's OWN trace of any history (distinct hashes, no end-block
+    with a negative time increment), [model_ts] being the checker's two accumulators as
+    [check_from] computes them: [holds_C08] never answers 4.  ANY configuration (module-served
+    services included).  From new invariants of Service/ProofsTrack.v, all proved over every
+    history: [TI] (a tracker entry (n, h0, true) of a stored repeated context with batch n means:
+    it is RUNNING, and either the expiry of batch n is registered at h0 + timeout, or batch n+1 is
+    scheduled at h0 + frequency), [SI] (a schedule entry is the new-batch marker of its context,
+    or is past), [FB] (frequency >= timeout for repeated contexts), and [eb_tracked]: the five
+    things one end-block can do to such a context. *)
+Theorem model_passes_C08_clause_4 :
+  forall c steps h0 t0 l0 univ,
+    NoDup (create_txhs steps) -> Forall good_step steps ->
+    forall pre st post, steps = pre ++ st :: post ->
+    forall seen fired pc pn pb,
+      let s := run c (init h0 t0 l0) pre in
+      let ts := model_ts univ c (init h0 t0 l0) ([], []) pre in
+      holds_C08 seen fired (fst ts) (snd ts) (obs_of univ pc pn pb s) st (obs_step univ c s st) <> 4.
+Proof. exact model_passes_C08_clause_4_lemma. Qed.
+Print Assumptions model_passes_C08_clause_4.
+
+(** [model_passes_check] for [check_case_C08], the earlier PARTIAL form (the complete one is
+    [model_passes_check_C08] below) (see [model_passes_clauses_C07],
     Props/C07.v, for the reading and the hypotheses): on the case the driver would print for the
-    MODEL, [check_case_C08] answers (-1, p, k) — no divergence — with k never 1, 2, 3, 5, 6, 8 or 9.
-    NOT covered: clause 4 (the checker's schedule tracker) and clause 7 as a whole (its two
-    history-wide lists are [model_passes_C08_clause_7_history]; the step-wise comparison with
-    [expected_cb] is not done).  So "k = 0" is not a theorem: k is 0, 4 or 7. *)
+    MODEL, [check_case_C08] answers (-1, p, k) — no divergence — with k never 1, 2, 3, 4, 5, 6, 8
+    or 9.  NOT covered: clause 7 as a whole (its two history-wide lists are
+    [model_passes_C08_clause_7_history]; the step-wise comparison with [expected_cb] is not done).
+    So "k = 0" is not a theorem: k is 0 or 7. *)
 Theorem model_passes_clauses_C08 :
   forall c steps h0 t0 l0 univ,
     c_msvc c < 0 -> 0 <= c_tax c -> clean l0 -> NoDup (create_txhs steps) -> Forall good_step steps ->
@@ -361,8 +388,8 @@ Theorem model_passes_clauses_C08 :
        In (TAX, q_fd q) univ /\ In (REQ, q_fd q) univ) ->
     ledger_of (obs_of univ 0 None [] (init h0 t0 l0)) = l0 ->
     forall corr p k, check_case_C08 (model_case univ c h0 t0 l0 steps) = (corr, p, k) ->
-      corr = -1 /\ k <> 1 /\ k <> 2 /\ k <> 3 /\ k <> 5 /\ k <> 6 /\ k <> 8 /\ k <> 9.
-Proof. exact model_passes_clauses_C08_3_lemma. Qed.
+      corr = -1 /\ k <> 1 /\ k <> 2 /\ k <> 3 /\ k <> 4 /\ k <> 5 /\ k <> 6 /\ k <> 8 /\ k <> 9.
+Proof. exact model_passes_clauses_C08_4_lemma. Qed.
 Print Assumptions model_passes_clauses_C08.
 
 (** The same for ANY configuration — module-served services included, any end-block step — with the
@@ -382,6 +409,45 @@ Theorem model_passes_clauses_any_config :
     /\ (forall corr p k, check_case_C08 cs = (corr, p, k) -> corr = -1 /\ k <> 2 /\ k <> 5 /\ k <> 6 /\ k <> 8 /\ k <> 9).
 Proof. exact model_passes_clauses_any_lemma. Qed.
 Print Assumptions model_passes_clauses_any_config.
+
+(** clause 7, COMPLETE (Service/ProofsCb.v): along the model's own trace, with the checker's
+    accumulator [fired] = [cb_keys] of the log so far, [holds_C08] never answers 7.  The step-wise
+    list: the callbacks a step logs are exactly [expected_cb] computed from the observations before
+    and after it ([same_set]: same length, every logged one expected) — a response completing the
+    batch of a module-owned context fires the response callback with the number of outputs of that
+    batch and err = nil iff the threshold is reached; every other message / keeper step logs
+    nothing; an end-block logs, per stored module-owned context, the response callback iff its
+    running batch expires now and the state callback iff the new-batch handler pauses it
+    ([eb_log_ctx]: the log entries of one context after the end-block = those before ++ exactly
+    the checker's per-context list; counted over the distinct stored ids). *)
+Theorem model_passes_C08_clause_7 :
+  forall c steps h0 t0 l0 univ,
+    NoDup (create_txhs steps) -> Forall good_step steps ->
+    forall pre st post, steps = pre ++ st :: post ->
+    forall seen tr sc pc pn pb,
+      let s := run c (init h0 t0 l0) pre in
+      holds_C08 seen (cb_keys (cblog s)) tr sc (obs_of univ pc pn pb s) st (obs_step univ c s st) <> 7.
+Proof. exact model_passes_C08_clause_7_lemma. Qed.
+Print Assumptions model_passes_C08_clause_7.
+
+(** [model_passes_check] for C08, COMPLETE: on the case the driver would print for the MODEL — its
+    own observation after every step of any history — the checker answers (-1, -1, 0): no
+    divergence, no step violating any of the nine clauses of [holds_C08], with the checker's own
+    accumulators ([seen], [fired], tracker, schedule) as [check_from] computes them.  Hypotheses: as
+    for [model_passes_clauses_C08] (no module-served service — needed by clauses 1 and 3 only —,
+    distinct hashes, no end-block with a negative time increment, escrows empty at the start, the
+    observed universe covers the accounts the C07 clauses read, initial ledger = the one the
+    checker rebuilds). *)
+Theorem model_passes_check_C08 :
+  forall c steps h0 t0 l0 univ,
+    c_msvc c < 0 -> 0 <= c_tax c -> clean l0 -> NoDup (create_txhs steps) -> Forall good_step steps ->
+    In (DEP, BASE) univ -> (forall d, In d (denoms c) -> In (REQ, d) univ) ->
+    (forall pre st post, steps = pre ++ st :: post -> forall rid q, get rid (reqs (run c (init h0 t0 l0) pre)) = Some q ->
+       In (TAX, q_fd q) univ /\ In (REQ, q_fd q) univ) ->
+    ledger_of (obs_of univ 0 None [] (init h0 t0 l0)) = l0 ->
+    check_case_C08 (model_case univ c h0 t0 l0 steps) = (-1, -1, 0).
+Proof. exact model_passes_check_C08_lemma. Qed.
+Print Assumptions model_passes_check_C08.
 
 (** ** non-vacuity: a history in which one request is answered and its sibling expires; a
     late answer to the expired one and a duplicate answer to the answered one are rejected;
